@@ -55,9 +55,9 @@ def main():
     ap.add_argument("--seeds", default="1")
     a = ap.parse_args()
     sid = f"{a.prop}-{a.variant}"
-    src = os.path.join(a.src, a.prop, a.variant)
-    if not os.path.isdir(src):  # already stored
-        src = f"/verif/seeded/{sid}"
+    src = f"/verif/seeded/{sid}"  # a kept change is verified from its stored copy
+    if not os.path.isdir(src):
+        src = os.path.join(a.src, a.prop, a.variant)
     meta = json.load(open(os.path.join(src, "meta.json")))
     demo = meta.get("demo", {})
     demo_file = os.path.join(src, demo.get("file", "demo_test.go"))
